@@ -162,7 +162,7 @@ def apply(src, reps, name):
     for old, new in reps:
         if old not in src:
             raise SystemExit('selftest: edit %s no longer applies to err.py (pattern not found)' % name)
-        src = src.replace(old, new) if name in ('rename-local', 'k-rename') else src.replace(old, new, 1)
+        src = src.replace(old, new) if name in GLOBAL_RENAMES else src.replace(old, new, 1)
     return src
 
 
@@ -176,19 +176,89 @@ def enclosing(vfile, line):
     return '?'
 
 
+# edits of the further targets: biom/_transform.pyx, biom/_subsample.pyx, biom/table.py (helpers), biom/util.py
+TRANSFORM_EDITS = [
+    ('t-first-id', 'semantic', '_transform: the function is handed the first id for every vector',
+     [('        id_ = ids[row_or_col]', '        id_ = ids[0]')]),
+    ('t-first-md', 'semantic', '_transform: the function is handed the first metadata entry',
+     [('        md = metadata[row_or_col]', '        md = metadata[0]')]),
+    ('t-next-seg', 'semantic', '_transform: the result is written one vector further',
+     [('        data[start:end] = function(data[start:end], id_, md)', '        data[end:end] = function(data[start:end], id_, md)')]),
+    ('t-rename', 'preserving', '_transform: local id_ renamed', [('id_', 'ident')]),
+    ('t-scale', 'reject', '_transform: the result is multiplied before it is stored',
+     [('        data[start:end] = function(data[start:end], id_, md)', '        data[start:end] = function(data[start:end], id_, md) * 2')]),
+]
+SUBSAMPLE_EDITS = [
+    ('s-while-gt', 'semantic', 'without replacement: the inner while uses > instead of >=',
+     [('            while (perm_count_el - count_el) >= count_rem:', '            while (perm_count_el - count_el) > count_rem:')]),
+    ('s-no-tail', 'semantic', 'without replacement: the tail of the segment is not zeroed',
+     [('        data[start+el+1:end] = 0\n', '')]),
+    ('s-le-n', 'semantic', 'without replacement: a vector with exactly n counts is zeroed',
+     [('        if counts_sum < n:', '        if counts_sum <= n:')]),
+    ('s-rep-current', 'preserving', 'with replacement: the totals are read from the current array (same values: the segments are disjoint)',
+     [('        counts_sum = data_ceil[start:end].sum()', '        counts_sum = data[start:end].sum()')]),
+    ('s-swap-init', 'preserving', 'without replacement: two initialisations swapped',
+     [('        el = 0         # index in result/data\n        count_el = 0  # index in permutted',
+       '        count_el = 0  # index in permutted\n        el = 0         # index in result/data')]),
+    ('s-np-sort', 'reject', 'without replacement: np.sort instead of .sort()',
+     [('        permuted.sort()', '        permuted = np.sort(permuted)')]),
+    ('s-break', 'reject', 'without replacement: a break in the inner while',
+     [('               el_cnt = 0\n', '               el_cnt = 0\n               break\n')]),
+]
+HELPERS_EDITS = [
+    ('h-union-b-first', 'semantic', '_union_id_order walks b before a',
+     [('        all_ids = list(a[:])\n        all_ids.extend(b[:])', '        all_ids = list(b[:])\n        all_ids.extend(a[:])')]),
+    ('h-inter-all', 'semantic', '_intersect_id_order tests membership in a itself',
+     [('        all_b = set(b[:])', '        all_b = set(a[:])')]),
+    ('h-axis-num', 'semantic', "_axis_to_num: 'sample' is 0",
+     [("        if axis == 'sample':\n            return 1\n        elif axis == 'observation':\n            return 0",
+       "        if axis == 'sample':\n            return 0\n        elif axis == 'observation':\n            return 1")]),
+    ('h-sum-axis', 'semantic', "Table.sum: 'sample' sums along axis 1",
+     [("        elif axis == 'sample':\n            axis = 0\n        elif axis == 'observation':\n            axis = 1",
+       "        elif axis == 'sample':\n            axis = 1\n        elif axis == 'observation':\n            axis = 0")]),
+    ('h-rename', 'preserving', '_union_id_order: local all_ids renamed', [('all_ids', 'every_id')]),
+    ('h-dict-call', 'reject', '_union_id_order: dict() instead of {}',
+     [('        all_ids.extend(b[:])\n        new_order = {}', '        all_ids.extend(b[:])\n        new_order = dict()')]),
+]
+UTIL_EDITS = [
+    ('u-prefer-other', 'semantic', 'prefer_self returns the other argument',
+     [('    return x if x else y', '    return y if x else x')]),
+    ('u-index-plus1', 'semantic', 'index_list numbers from 1',
+     [('    return {id_: idx for idx, id_ in enumerate(item)}', '    return {id_: idx + 1 for idx, id_ in enumerate(item)}')]),
+    ('u-rename', 'preserving', 'index_list: comprehension variable renamed',
+     [('    return {id_: idx for idx, id_ in enumerate(item)}', '    return {key: idx for idx, key in enumerate(item)}')]),
+    ('u-enumerate-1', 'reject', 'index_list: enumerate(item, 1)',
+     [('enumerate(item)}', 'enumerate(item, 1)}')]),
+    ('u-is-none', 'reject', 'prefer_self tests `is not None` (the signature file types x by its truth value only)',
+     [('    return x if x else y', '    return x if x is not None else y')]),
+]
+
+# target, source (under biom/), generated file, files compiled in the scratch tree, edits, property of --check
+TARGETS = [
+    ('err', 'err.py', 'ErrGen.v', COQ_FILES, EDITS, 'C20'),
+    ('filter', '_filter.pyx', 'FilterGen.v', KERNEL_COQ_FILES, KERNEL_EDITS, 'C08'),
+    ('transform', '_transform.pyx', 'TransformGen.v', ['Gen/TransformGen.v', 'Proofs/GenBridgeProofs.v'], TRANSFORM_EDITS, 'C13'),
+    ('subsample', '_subsample.pyx', 'SubsampleGen.v', ['Gen/SubsampleGen.v', 'Proofs/GenBridgeSubsampleProofs.v'], SUBSAMPLE_EDITS, 'C12'),
+    ('helpers', 'table.py', 'HelpersGen.v', ['Gen/HelpersGen.v', 'Proofs/GenBridgeMergeProofs.v', 'Proofs/GenBridgeAxisProofs.v'], HELPERS_EDITS, 'C09'),
+    ('util', 'util.py', 'UtilGen.v', ['Gen/UtilGen.v', 'Proofs/GenBridgeMergeProofs.v', 'Proofs/GenBridgeIndexProofs.v'], UTIL_EDITS, 'C09'),
+]
+GLOBAL_RENAMES = ('rename-local', 'k-rename', 't-rename', 'h-rename')
+# the property whose check an edit is run through with --check, where it is not the target's default
+EDIT_PROP = {'h-axis-num': 'C19', 'h-sum-axis': 'C19', 'u-index-plus1': 'C05', 'u-rename': 'C05'}
+
+
 def prepare_coq(d):
-    """scratch coq tree: compiled Base + ErrTypes, sources of the four dependent files"""
+    """scratch coq tree: every compiled file of the development, plus the sources that are recompiled"""
     for sub in ('Base', 'Model', 'Gen', 'Proofs', 'Props'):
         os.makedirs(os.path.join(d, sub), exist_ok=True)
-    for f in os.listdir(os.path.join(VERIF, 'coq', 'Base')):
-        if f.endswith('.vo'):
-            shutil.copy(os.path.join(VERIF, 'coq', 'Base', f), os.path.join(d, 'Base', f))
-    shutil.copy(os.path.join(VERIF, 'coq', 'Model', 'ErrTypes.v'), os.path.join(d, 'Model', 'ErrTypes.v'))
-    rc, out = sh(['coqc', '-Q', '.', 'BiomV', 'Model/ErrTypes.v'], cwd=d)
-    if rc:
-        raise SystemExit('selftest: cannot compile ErrTypes.v in the scratch tree (build Base first)\n' + out)
-    shutil.copy(os.path.join(VERIF, 'coq', 'Model', 'Table.vo'), os.path.join(d, 'Model', 'Table.vo'))
-    for f in COQ_FILES[1:] + KERNEL_COQ_FILES[1:]:
+    for sub in ('Base', 'Model', 'Gen', 'Proofs'):
+        for f in os.listdir(os.path.join(VERIF, 'coq', sub)):
+            if f.endswith('.vo'):
+                shutil.copy(os.path.join(VERIF, 'coq', sub, f), os.path.join(d, sub, f))
+    need = set()
+    for t in TARGETS:
+        need.update(t[3][1:])
+    for f in sorted(need):
         shutil.copy(os.path.join(VERIF, 'coq', f), os.path.join(d, f))
 
 
@@ -213,14 +283,18 @@ def prepare_check():
     return v, r
 
 
-def check_run(v, r, text):
-    open(os.path.join(r, 'biom', 'err.py'), 'w').write(text)
+def check_run(v, r, text, relsrc='err.py', prop='C20', orig=None):
+    open(os.path.join(r, 'biom', relsrc), 'w').write(text)
     env = dict(os.environ, BIOM_REPO=r)
-    rc, out = sh([os.path.join(v, 'check'), 'C20'], cwd=v, env=env, timeout=1200)
+    try:
+        rc, out = sh([os.path.join(v, 'check'), prop], cwd=v, env=env, timeout=1800)
+    finally:
+        if orig is not None:
+            open(os.path.join(r, 'biom', relsrc), 'w').write(orig)
     verdict = [ln for ln in out.split('\n') if ln.startswith('VIOLATION')]
-    summ = [ln for ln in out.split('\n') if ln.startswith('C20 ')]
+    summ = [ln for ln in out.split('\n') if ln.startswith(prop + ' ')]
     if not verdict:
-        return 'pass (%s)' % (re.sub(r'^C20 \w+: ', '', summ[0])[:60] if summ else 'rc=%d' % rc), None
+        return '%s pass (%s)' % (prop, re.sub(r'^C\d+ \w+: ', '', summ[0])[:60] if summ else 'rc=%d' % rc), None
     m = re.search(r'replay=(\S+)', verdict[0])
     kind = 'no-failing-input-found' if 'no-failing-input-found' in verdict[0] else 'failing input'
     detail = None
@@ -228,7 +302,7 @@ def check_run(v, r, text):
         import json
         rp = json.load(open(m.group(1)))
         detail = {'case': rp.get('case'), 'oracle': rp.get('oracle'), 'broken': rp.get('broken')}
-    return 'VIOLATION, ' + kind, detail
+    return '%s VIOLATION, %s' % (prop, kind), detail
 
 
 def main(argv):
@@ -243,10 +317,11 @@ def main(argv):
     prepare_coq(coqd)
     rows, details, bad = [], [], False
     vs = prepare_check() if do_check else None
-    for target, relsrc, genname, files, edits in (('err', 'err.py', 'ErrGen.v', COQ_FILES, EDITS),
-                                                  ('filter', '_filter.pyx', 'FilterGen.v', KERNEL_COQ_FILES, KERNEL_EDITS)):
+    for target, relsrc, genname, files, edits, prop in TARGETS:
         if only and not any(e[0] in only for e in edits):
             continue
+        shutil.rmtree(coqd, ignore_errors=True)      # a fresh tree per target: recompiling Model/*.v invalidates dependants
+        prepare_coq(coqd)
         orig = open(os.path.join(REPO, 'biom', relsrc)).read()
         src_path = os.path.join(SCRATCH, 'repo', 'biom', relsrc)
         tr = [sys.executable, os.path.join(HERE, 'main.py'), '--repo', os.path.join(SCRATCH, 'repo'), '--out', SCRATCH, target]
@@ -290,15 +365,15 @@ def main(argv):
                 col_p = 'all proofs check' if ok else 'breaks ' + where
                 if group == 'reject' or (group == 'semantic' and (not differs or ok)):
                     bad = True
-                if do_check and target == 'err':
-                    verdict, det = check_run(vs[0], vs[1], text)
+                if do_check:
+                    verdict, det = check_run(vs[0], vs[1], text, relsrc, EDIT_PROP.get(name, prop), orig)
                     if det:
                         details.append((name, det))
             rows.append((name, group, what, col_t, col_d, col_p, verdict))
         open(src_path, 'w').write(orig)
         sh(tr)
     # report
-    hdr = ('edit', 'group', 'what', 'translator', 'generated .v', 'proofs / refusal message', './check C20')
+    hdr = ('edit', 'group', 'what', 'translator', 'generated .v', 'proofs / refusal message', './check')
     if md:
         print('| ' + ' | '.join(hdr) + ' |')
         print('|' + '---|' * len(hdr))
